@@ -18,6 +18,7 @@ import os
 import subprocess
 import sys
 import sysconfig
+import threading
 import time
 import types
 from concurrent.futures import ThreadPoolExecutor
@@ -162,16 +163,25 @@ def _run(cmd):
         raise RuntimeError('build failed: %s\n%s' % (' '.join(cmd), p.stdout[-4000:]))
 
 
+_obj_guard = threading.Lock()
+_obj_locks = {}
+
+
 def _obj(src, flags, tag):
     """Compile one C file to an object, cached by content hash."""
     h = hashlib.sha256((sha(src) + '|' + ' '.join(flags) + '|' + tag).encode()).hexdigest()[:20]
     odir = os.path.join(BUILD, 'obj')
     os.makedirs(odir, exist_ok=True)
     o = os.path.join(odir, os.path.basename(src)[:-2] + '.' + h + '.o')
-    if not os.path.exists(o):
-        tmp = o + '.tmp%d' % os.getpid()
-        _run(['gcc', '-c', src, '-o', tmp] + flags)
-        os.replace(tmp, o)
+    with _obj_guard:
+        lk = _obj_locks.setdefault(o, threading.Lock())
+    with lk:
+        if not os.path.exists(o):
+            tmp = o + '.tmp%d.%d' % (os.getpid(), threading.get_ident())
+            _run(['gcc', '-c', src, '-o', tmp] + flags)
+            os.replace(tmp, o)
+        else:
+            os.utime(o)
     return o
 
 
@@ -209,6 +219,21 @@ class _Lock(object):
         self.f.close()
 
 
+def _prune(root, keep=None, max_age_s=1800):
+    """drop overlays/objects of earlier working-tree states (disk is limited)"""
+    import shutil
+    now = time.time()
+    for d in (os.listdir(root) if os.path.isdir(root) else []):
+        p = os.path.join(root, d)
+        if p == keep:
+            continue
+        try:
+            if now - os.path.getmtime(p) > max_age_s:
+                shutil.rmtree(p) if os.path.isdir(p) else os.remove(p)
+        except OSError:
+            pass
+
+
 def ensure(verbose=False):
     """Return (overlay_dir or None, info).  Rebuilds whatever differs from the
     pinned manifest into an overlay directory keyed by the set of changes."""
@@ -229,6 +254,9 @@ def ensure(verbose=False):
         info = {'rebuilt': todo, 'unbuildable': unbuildable, 'n_ext': len(st)}
         if not todo:
             info['wall_s'] = round(time.time() - t0, 2)
+            _prune(os.path.join(BUILD, 'overlay'))
+            _prune(os.path.join(BUILD, 'obj'), max_age_s=6 * 3600)
+            _prune(os.path.join(BUILD, 'lib'), max_age_s=6 * 3600)
             return None, info
         okey = hashlib.sha256('|'.join(n + ':' + st[n]['key'] for n in todo).encode()).hexdigest()[:16]
         odir = os.path.join(BUILD, 'overlay', okey)
@@ -241,6 +269,7 @@ def ensure(verbose=False):
                 list(ex.map(lambda n: build_extension(st[n]['ext'], odir), todo))
             with open(done, 'w') as f:
                 json.dump(todo, f)
+        _prune(os.path.join(BUILD, 'overlay'), keep=odir)
         info['overlay'] = odir
         info['wall_s'] = round(time.time() - t0, 2)
         return odir, info
@@ -286,6 +315,8 @@ def build_ctypes_lib(sanitize=False, repo=REPO):
                 ld += ['-fsanitize=address,undefined']
             _run(ld)
             os.replace(tmp, dst)
+        else:
+            os.utime(dst)
         return dst
 
 
